@@ -108,6 +108,10 @@ class ModelReplay:
         if name == "UserTry":
             self.login = self.r.user("try-submit-jobs", self.w.out)
             return
+        if name == "UserResubmit":
+            flags = ["--failed" if x & 1 else "--no-failed", "--missing" if x & 2 else "--no-missing"] + (["--successful"] if x & 4 else [])
+            self.login = self.r.user("resubmit-jobs", self.w.out, *flags)
+            return
         if name == "UserCancel":
             self.canceller = self.r.user("cancel-jobs", self.w.out, host="login")
             return
@@ -138,7 +142,13 @@ class ModelReplay:
                     self.step(p)
             return
         p = self.proc_of(a)
-        if name in ("Promote", "CheckComplete", "MarkComplete", "Demote"):
+        if name == "RPromote":
+            self.expect(p, "lock", "cluster")
+            self.step(p)
+        elif name == "RReset":
+            self.expect(p, "lock", "processed")
+            self.step(p)
+        elif name in ("Promote", "CheckComplete", "MarkComplete", "Demote"):
             self.expect(p, "lock", "cluster")
             self.step(p)
         elif name == "CPromote":
